@@ -35,7 +35,7 @@ var bodyKinds = []string{"genuine", "null", "empty", "{}", "[]", "string", "numb
 
 var statuses = []int{200, 200, 200, 200, 201, 204, 400, 404, 412, 500, 503}
 
-const ruleClient = "client.HTTPClient (Membership, MembershipDigest, Incremental, MembershipAutoVerify, IncrementalAutoVerify, GetSnapshot, then verification of whatever proof came back) against a scripted httptest server that answers each request with a drawn status {200,201,204,400,404,412,500,503} and a drawn body {genuine answer, null, empty, {}, [], string, number, truncated genuine, garbage, wrong JSON types per field, null fields, negative / float versions, deep nesting, duplicated keys, null snapshot parts}. Oracle: every client call returns (value or error) within 5 s without panicking. evaluations = client calls. Non-trivial: the scripted body was served with a 2xx status (so it reached decoding) and is not the genuine answer; distinct = FNV-64 of (log, call, response)."
+const ruleClient = "client.HTTPClient (Membership, MembershipDigest, Incremental, MembershipAutoVerify, IncrementalAutoVerify, GetSnapshot, then verification of whatever proof came back) against a scripted httptest server that answers each request with a drawn status {200,201,204,400,404,412,500,503} and a drawn body {genuine answer, null, empty, {}, [], string, number, truncated genuine, garbage, wrong JSON types per field, null fields, negative / float versions, deep nesting, duplicated keys, null snapshot parts}. Half of the calls get exactly one hostile answer among genuine ones. The harness uses the results the way the CLI and the agents do: no error means the proof / snapshot is used. Oracle: every client call returns (value or error) within 5 s without panicking, and using a result that came without an error does not panic either. evaluations = client calls. Non-trivial: the scripted body was served with a 2xx status (so it reached decoding) and is not the genuine answer; distinct = FNV-64 of (log, call, response)."
 
 func TestScriptedServer(t *testing.T) {
 	rec := pbt.NewRec("C12", "TestScriptedServer", ruleClient)
@@ -44,13 +44,26 @@ func TestScriptedServer(t *testing.T) {
 		h := CH{LogHistory: rig.DrawLog(rt, 12, true, false)}
 		for i := 0; i < ncalls; i++ {
 			h.Seq = append(h.Seq, rapid.IntRange(0, 5).Draw(rt, "call"))
-			for j := 0; j < 3; j++ { // a call makes up to three requests
-				h.Resps = append(h.Resps, Resp{
+			// a call makes up to three requests; half of the calls get exactly one hostile
+			// answer among genuine ones, so that the multi-request calls (the *AutoVerify
+			// ones) get past their other requests and reach verification with it
+			only := -1
+			if rapid.Bool().Draw(rt, "one-hostile") {
+				only = rapid.IntRange(0, 2).Draw(rt, "which")
+			}
+			for j := 0; j < 3; j++ {
+				r := Resp{
 					Status: rapid.SampledFrom(statuses).Draw(rt, "status"),
 					Kind:   rapid.SampledFrom(bodyKinds).Draw(rt, "kind"),
 					A:      rapid.IntRange(0, 40).Draw(rt, "a"),
 					B:      rapid.IntRange(0, 40).Draw(rt, "b"),
-				})
+				}
+				if only >= 0 && j != only {
+					r.Status, r.Kind = 200, "genuine"
+				} else if only >= 0 && rapid.Bool().Draw(rt, "ok-status") {
+					r.Status = 200
+				}
+				h.Resps = append(h.Resps, r)
 			}
 		}
 		return h
@@ -194,21 +207,21 @@ func execClient(h CH, rec *pbt.Rec) error {
 		case 0:
 			what = "Membership"
 			f = func() {
-				if p, err := c.Membership([]byte("event"), &q); err == nil && p != nil {
+				if p, err := c.Membership([]byte("event"), &q); err == nil { // as callers do: no error means there is a proof
 					p.Verify([]byte("event"), snap)
 				}
 			}
 		case 1:
 			what = "MembershipDigest"
 			f = func() {
-				if p, err := c.MembershipDigest(rig.Dg(e), &q); err == nil && p != nil {
+				if p, err := c.MembershipDigest(rig.Dg(e), &q); err == nil {
 					c.MembershipVerify(rig.Dg(e), p, snap)
 				}
 			}
 		case 2:
 			what = "Incremental"
 			f = func() {
-				if p, err := c.Incremental(0, q); err == nil && p != nil {
+				if p, err := c.Incremental(0, q); err == nil {
 					c.IncrementalVerify(p, b.Snaps[0], snap)
 				}
 			}
@@ -221,7 +234,7 @@ func execClient(h CH, rec *pbt.Rec) error {
 		case 5:
 			what = "GetSnapshot"
 			f = func() {
-				if s, err := c.GetSnapshot(q); err == nil && s != nil {
+				if s, err := c.GetSnapshot(q); err == nil {
 					_ = balloon.Snapshot(*s)
 				}
 			}
